@@ -50,7 +50,8 @@ New(f, a) == NewAt(0, f, a)
 Fun(name, params, body) == [e |-> "fun", name |-> name, params |-> params, body |-> body, arrow |-> FALSE]
 Arrow(params, body) == [e |-> "fun", name |-> "", params |-> params, body |-> body, arrow |-> TRUE]
 Arr(a) == [e |-> "arr", a |-> a]
-Obj(ks, vs) == [e |-> "obj", ks |-> ks, vs |-> vs]
+ObjK(ks, kd, vs) == [e |-> "obj", ks |-> ks, kd |-> kd, vs |-> vs]      \* kd[j]: "init" | "get" | "set" (vs[j] a function for get / set)
+Obj(ks, vs) == ObjK(ks, [j \in 1..Len(ks) |-> "init"], vs)
 Comma(a) == [e |-> "seq", a |-> a]
 Log(x) == Call(Var("log"), <<x>>)
 
